@@ -7,6 +7,7 @@ import Driver.LexDrv
 import Driver.Lit
 import Driver.CliDrv
 import Driver.Run2
+import Driver.ParseDrv
 open Lean
 
 partial def loop (h : IO.FS.Stream) (out : IO.FS.Stream) (f : Json → Json) : IO Unit := do
@@ -28,6 +29,7 @@ def generic (g : DrvRun.GOracle) (j : Json) : Json :=
   | "lit" => DrvLit.lits g j
   | "cli" => DrvCli.cli j
   | "run2" => DrvRun2.run2 g j
+  | "parse" => DrvParse.parseCase j
   | "hist" =>
     -- a history of operations run in one process: every operation is judged on its own against
     -- the (history-free) model
